@@ -57,7 +57,7 @@ macro_rules! webm_int {
 
 webm_int! {
     u8 => (get_u8, put_u8),
-    u16 => (get_u16, put_u16_le),
+    u16 => (get_u16_le, put_u16_le),
     u32 => (get_u32_le, put_u32_le),
     u64 => (get_u64_le, put_u64_le),
     i8 => (get_i8, put_i8),
